@@ -56,6 +56,22 @@ EXIT_WINDOW_UNITS = [
     "(c15-collector 12)",
     "(thread-join! c15-t)",
 ]
+# deterministic probe of "a thread created while an update is in flight sees the update": the updater assigns the
+# global while main is inside spawn-native-thread (the injected delay sits between the start of the new thread and its
+# registration); the new thread reads the global only after main told it to (the global is assigned in its defining unit
+# too, so that the reader is not compiled with the constant inlined: open finding C06-INLINE-SET is a different matter).
+# Measured: (2 2) in 40 of 40 runs on the unchanged tree; also (2 2) under a hand-made change that releases the guard
+# before the registration (an assignment reaches the unregistered thread through the shared slot storage) - that change
+# is reported through the broken obligation gen_config_is_fixed with the model's history, no-failing-input-found.
+SPAWN_PROBE_UNITS = [
+    "(define c15-pf 0)\n(set! c15-pf 0)\n(define c15-pg (channels/new)) (define c15-pg-s (channels-sender c15-pg)) (define c15-pg-r (channels-receiver c15-pg))\n"
+    "(define c15-pk (channels/new)) (define c15-pk-s (channels-sender c15-pk)) (define c15-pk-r (channels-receiver c15-pk))\n"
+    "(define (c15-preader) (channel/recv c15-pk-r) c15-pf)",
+    "(define c15-pupd (spawn-native-thread (lambda () (channel/recv c15-pg-r) (set! c15-pf 1) (set! c15-pf 2) 'updated)))",
+    "(define c15-pkid (begin (channel/send c15-pg-s 1) (spawn-native-thread c15-preader)))",
+    "(thread-join! c15-pupd)",
+    "(begin (channel/send c15-pk-s 1) (list c15-pf (thread-join! c15-pkid)))",
+]
 SPAWN_WINDOW_UNITS = [
     "(define c15-flag 0)\n(define c15-ch (channels/new)) (define c15-s (channels-sender c15-ch)) (define c15-r (channels-receiver c15-ch))\n"
     "(define c15-go (channels/new)) (define c15-go-s (channels-sender c15-go)) (define c15-go-r (channels-receiver c15-go))\n"
@@ -157,6 +173,9 @@ def run(ck):
         for _ in range(reps):
             jobs.append(("exit-window", EXIT_WINDOW_UNITS, jit, "sp_exit_checked:300:20,poll_exit_checked:300:2,scan:400"))
             jobs.append(("spawn-window", SPAWN_WINDOW_UNITS, jit, "spawn_unreg:30000"))
+    for jit in (True, False):
+        for _ in range(2 if quick else 6):
+            jobs.append(("spawn-probe", SPAWN_PROBE_UNITS, jit, "spawn_unreg:30000"))
     # (1b) definitions that land in recycled global slots while another thread is alive
     for jit in (True, False):
         for _ in range(1 if quick else 6):
@@ -217,6 +236,15 @@ def run(ck):
                     confirmed["spawn-window"] += 1
             elif stale is None:
                 ck.failing_input("spawn-window program failed: %s" % json.dumps(last)[:200], dict(base, kind="error", units=payload), tag="err")
+        if kind == "spawn-probe":
+            last = d["res"][-1] if d.get("res") else {}
+            got = (last.get("ok") or [None])[-1]
+            if got != "(I2 I2)":
+                ck.failing_input("a thread created while a global was being assigned does not see the completed assignment: main and the "
+                                 "new thread read %s (JIT %s, delays %s)" % (got if got else json.dumps(last)[:160], "on" if jit else "off", delay),
+                                 dict(base, kind="stale-global-after-spawn", units=payload, got=got), tag="probe")
+            else:
+                distinct.add(("spawn-probe", jit))
         if kind == "recycled-define":
             fails = recycled_define_failures(d)
             answered = sum(1 for r in d.get("res") or [] for v in (r.get("ok") or []) if v.startswith("('\"c15-"))
